@@ -713,21 +713,6 @@ with rletss (args : list string) (sub : list (string * option string)) (l : exps
   | ECons e r => ECons (rlets args sub e) (rletss args sub r)
   end.
 
-(* ------------------------------------------------------------------ the modelled part of the pipeline
-   (compiler.rs lower_expressions_impl L1103-1430, in this order; passes that do not act on the fragment omitted) *)
-Definition has_marker (e : exp) : bool := mem "#%arity-mismatch" (gvs e).
-
-Definition pipeline (g : guards) (e : exp) : option exp :=
-  if has_marker (fst (fst (cvisit g [] e))) then None            (* ArityMismatch at compile time *)
-  else
-    let e1 := ceval g e in                                       (* L1202 *)
-    let e2 := flatten g e1 in                                    (* L1284 *)
-    let e3 := plain_let g e2 in                                  (* L1357 *)
-    let e4 := ceval g e3 in                                      (* L1410 *)
-    let e5 := prune_if g e4 in                                   (* L1413 SingleExprOptimizer *)
-    Some (rlets [] [] e5).
-
-(* ------------------------------------------------------------------ rendering (correspondence) *)
 Definition digit (n : nat) : string :=
   String (Ascii.ascii_of_nat (48 + n)) EmptyString.
 Fixpoint nat_str_f (k n : nat) : string :=
@@ -736,6 +721,57 @@ Fixpoint nat_str_f (k n : nat) : string :=
   | S k' => if Nat.ltb n 10 then digit n else nat_str_f k' (Nat.div n 10) ++ digit (Nat.modulo n 10)
   end.
 Definition nat_str (n : nat) : string := nat_str_f (S n) n.
+
+(* ------------------------------------------------------------------ RenameShadowedVariables (compiler.rs L1217, right after the
+   first constant evaluation; again after flattening): afterwards every binder has its own name, so the later passes
+   never see shadowing.  Modelled (every binder gets the next number) only to make the AST correspondence reach past
+   it; no theorem.  An assigned variable is written Glob / SetG: renamed with its binder. *)
+Fixpoint ren_find (x : string) (m : list (string * string)) : string :=
+  match m with [] => x | (y, y') :: r => if String.eqb x y then y' else ren_find x r end.
+Fixpoint ren_names (k : nat) (ps : list string) : list string :=
+  match ps with [] => [] | p :: r => (p ++ "#" ++ nat_str k)%string :: ren_names (S k) r end.
+
+Fixpoint uniq (k : nat) (m : list (string * string)) (e : exp) : exp * nat :=
+  match e with
+  | Num _ | Bool_ _ | Quote _ => (e, k)
+  | Loc x => (Loc (ren_find x m), k)
+  | Glob x => (Glob (ren_find x m), k)
+  | Lam ps r b =>
+      let ps' := ren_names k ps in
+      let '(b', k1) := uniq (k + List.length ps) (rev (combine ps ps') ++ m)%list b in
+      (Lam ps' r b', k1)
+  | Call f a => let '(a', k1) := uniqs k m a in let '(f', k2) := uniq k1 m f in (Call f' a', k2)
+  | If c t e' => let '(c', k1) := uniq k m c in let '(t', k2) := uniq k1 m t in let '(e'', k3) := uniq k2 m e' in (If c' t' e'', k3)
+  | Let xs rhs b =>
+      let '(rhs', k1) := uniqs k m rhs in
+      let xs' := ren_names k1 xs in
+      let '(b', k2) := uniq (k1 + List.length xs) (rev (combine xs xs') ++ m)%list b in
+      (Let xs' rhs' b', k2)
+  | Begin es => let '(es', k1) := uniqs k m es in (Begin es', k1)
+  | Prim op a => let '(a', k1) := uniqs k m a in (Prim op a', k1)
+  | SetG x e' => let '(e'', k1) := uniq k m e' in (SetG (ren_find x m) e'', k1)
+  end
+with uniqs (k : nat) (m : list (string * string)) (l : exps) : exps * nat :=
+  match l with
+  | ENil => (ENil, k)
+  | ECons e r => let '(e', k1) := uniq k m e in let '(r', k2) := uniqs k1 m r in (ECons e' r', k2)
+  end.
+
+(* ------------------------------------------------------------------ the modelled part of the pipeline
+   (compiler.rs lower_expressions_impl L1103-1430, in this order; passes that do not act on the fragment omitted) *)
+Definition has_marker (e : exp) : bool := mem "#%arity-mismatch" (gvs e).
+
+Definition pipeline (g : guards) (e : exp) : option exp :=
+  if has_marker (fst (fst (cvisit g [] e))) then None            (* ArityMismatch at compile time *)
+  else
+    let e1 := fst (uniq 0 [] (ceval g e)) in                     (* L1202, L1217 *)
+    let e2 := flatten g e1 in                                    (* L1284 *)
+    let e3 := plain_let g e2 in                                  (* L1357 *)
+    let e4 := ceval g e3 in                                      (* L1410 *)
+    let e5 := prune_if g e4 in                                   (* L1413 SingleExprOptimizer *)
+    Some (rlets [] [] e5).
+
+(* ------------------------------------------------------------------ rendering (correspondence) *)
 Definition z_str (z : Z) : string :=
   match z with
   | Z0 => "0"
